@@ -545,6 +545,7 @@ def snap_overlay():
 # ---------------------------------------------------------------- (de)serialisation for replays
 def set_to_json(cs, runs):
     return {"name": cs.name, "regime": cs.regime, "files": cs.files, "assign": cs.assign, "lossy": getattr(cs, "lossy", None), "dgap": getattr(cs, "dgap", None),
+            "lossinfo": {str(k): list(v) for k, v in getattr(cs, "lossinfo", {}).items()} or None,
             "convs": [c.to_json() for c in cs.convs],
             "packets": [{k: (v.hex() if isinstance(v, bytes) else v) for k, v in p.items()} for p in cs.packets],
             "runs": [[l, se, [[f, fl] for f, fl in st]] for l, se, st in runs]}
@@ -557,6 +558,8 @@ def set_from_json(o):
         cs.lossy = o["lossy"]
     if o.get("dgap") is not None:
         cs.dgap = o["dgap"]
+    if o.get("lossinfo"):
+        cs.lossinfo = {int(k): tuple(v) for k, v in o["lossinfo"].items()}
     byid = {}
     for c in o["convs"]:
         cv = Conv(c["cid"], c["proto"], tuple(c["client"]), tuple(c["server"]), [(d, bytes.fromhex(b)) for d, b in c["msgs"]], c["close"], c["closer"])
@@ -579,6 +582,8 @@ def restrict(cs, cids):
         out.lossy = cs.lossy
     if hasattr(cs, "dgap"):
         out.dgap = cs.dgap
+    if hasattr(cs, "lossinfo"):
+        out.lossinfo = cs.lossinfo
     keep = set(cids)
     out.convs = [c for c in cs.convs if c.cid in keep]
     out.packets = [p for p in cs.packets if p["cid"] in keep]
@@ -596,6 +601,8 @@ def nonempty_runs(cs, runs):
         cs2.lossy = cs.lossy
     if hasattr(cs, "dgap"):
         cs2.dgap = cs.dgap
+    if hasattr(cs, "lossinfo"):
+        cs2.lossinfo = cs.lossinfo
     cs2.files = [cs.files[f] for f in used]
     cs2.assign = [remap[f] for f in cs.assign]
     runs2 = []
@@ -649,7 +656,7 @@ def wrap_dirs(conv):
 
 def classify_c05(cs, visible):
     """-> ("ok"|"known:<slug>"|"violation", errs)"""
-    errs = oracle_c05(cs, visible)
+    errs = oracle_lossy(cs, visible) if getattr(cs, "lossinfo", None) else oracle_c05(cs, visible)
     if not errs:
         return "ok", []
     if cs.regime == "tcp-reuse-early" and compare_to_expected(expected_with_reuse_defect(cs), visible):
@@ -670,7 +677,7 @@ def classify_c05(cs, visible):
 
 
 # ---------------------------------------------------------------- generation of the check's case list
-MAIN_REGIMES = ["plain", "dup", "reorder", "tiecut", "udp-only", "udp-collide", "udp-reuse", "tcp-only", "tcp-reuse-late", "mixed", "tiecut", "udp-bucket", "reorder", "udp-bucket", "unsorted", "unsorted"]
+MAIN_REGIMES = ["plain", "dup", "reorder", "tiecut", "udp-only", "udp-collide", "udp-reuse", "tcp-only", "tcp-reuse-late", "mixed", "tiecut", "udp-bucket", "reorder", "udp-bucket", "unsorted", "unsorted", "lossy-end", "lossy-end"]
 
 
 def gen_reuse(rng, name, early):
@@ -862,7 +869,94 @@ def shuffle_records(rng, cs):
             pos += 1
 
 
+def gen_lossy_end(rng, name):
+    """capture loss: one data segment (all its copies) of one direction of some TCP conversations is missing, so gopacket
+    queues what follows the gap; it is emitted by the FlushAll at the end of the import or by the inactivity flush that a
+    later flow in the same port bucket triggers.  The packet processed last belongs to the other side or to another
+    stream.  Ground truth for such a conversation: per direction the exchanged bytes minus the missing ones, attributed to
+    the right side (the ORDER of direction runs is not defined when payload is emitted late and is not compared)."""
+    cs = gen_capture_set(rng, name, rng.choice(["tcp-only", "mixed", "plain", "dup"]))
+    info = {}
+    for c in cs.convs:
+        if c.proto != "TCP":
+            continue
+        d = rng.choice("cs")
+        cand = [p for p in c.pkts if p["dir"] == d and p["data"] and "S" not in p["flags"]]
+        if len(cand) >= 2 and rng.random() < 0.8:
+            first = min(cand, key=lambda p: p["seq"])
+            later = [p for p in cand if p["seq"] + len(p["data"]) < max(q["seq"] + len(q["data"]) for q in cand)]
+            if not later:
+                continue
+            drop = rng.choice(later)
+            lo, hi = drop["seq"], drop["seq"] + len(drop["data"])
+            gone = [p for p in cand if not (p["seq"] + len(p["data"]) <= lo or p["seq"] >= hi)]
+            base = (c.pkts[0]["seq"] if d == "c" else c.pkts[1]["seq"]) + 1
+            c.pkts = [p for p in c.pkts if not any(p is g for g in gone)]
+            for i, p in enumerate(c.pkts):
+                p["seqno"] = i
+            info[c.cid] = (d, lo - base, hi - base)
+    t_hi = max(p["ts"] for c in cs.convs for p in c.pkts)
+    late = []
+    if rng.random() < 0.5:
+        for c in [c for c in cs.convs if c.cid in info][:2]:
+            lc = Conv(len(cs.convs) + len(late), "TCP", ("0a0009%02x" % (len(late) + 1), c.client[1]), ("0a000a01", c.server[1]),
+                      [("c", b"late")], close="fin")
+            render_tcp(rng, lc, t_hi + TIMEOUT_US + rng.randrange(1, 100 * 1000000), 0, isn=(11, 22))
+            late.append(lc)
+    cs.convs += late
+    allp = [p for c in cs.convs for p in c.pkts]
+    allp.sort(key=lambda p: (p["ts"], p["cid"], p["seqno"]))
+    cs.packets = allp
+    cs.regime = "lossy"
+    cs.lossy = sorted(info)
+    cs.lossinfo = info
+    return cs
+
+
+def oracle_lossy(cs, visible):
+    exp = expected_streams(cs)
+    info = {int(k): v for k, v in cs.lossinfo.items()}
+    errs, used = [], set()
+    vis = list(visible.values())
+    for e in exp:
+        cands = [s for s in vis if s["proto"] == e["proto"] and s["pk"] and s["pk"][0][:2] == e["pk"][0][:2]]
+        if len(cands) != 1:
+            errs.append("conversation %d: %d visible streams start with its first packet" % (e["cid"], len(cands)))
+            continue
+        s = cands[0]
+        used.add(s["id"])
+        if s["client"] != e["client"] or s["server"] != e["server"]:
+            errs.append("conversation %d: endpoints %s>%s, expected %s>%s" % (e["cid"], s["client"], s["server"], e["client"], e["server"]))
+        if s["pk"] != e["pk"]:
+            errs.append("conversation %d: packets %s, expected %s" % (e["cid"], s["pk"], e["pk"]))
+        if e["cid"] in info:
+            conv = next(c for c in cs.convs if c.cid == e["cid"])
+            d0, lo, hi = info[e["cid"]]
+            for d in "cs":
+                full = b"".join(b for dd, b in conv.msgs if dd == d)
+                want = full
+                if d == d0:
+                    # what the capture still carries of that direction (other copies of neighbouring bytes may be gone too)
+                    base = (conv.pkts[0]["seq"] if d == "c" else next(p for p in conv.pkts if p["dir"] == "s")["seq"]) + 1
+                    cov = set()
+                    for p in conv.pkts:
+                        if p["dir"] == d and p["data"] and "S" not in p["flags"]:
+                            cov.update(range(p["seq"] - base, p["seq"] - base + len(p["data"])))
+                    want = bytes(full[i] for i in range(len(full)) if i in cov)
+                got = b"".join(b for dd, b in s["runs"] if dd == d)
+                if got != want:
+                    errs.append("conversation %d (capture gap %s[%d:%d]): %s payload %s, expected %s" % (e["cid"], d0, lo, hi, d, got.hex()[:200], want.hex()[:200]))
+        elif s["runs"] != e["runs"]:
+            errs.append("conversation %d: payload runs %s, expected %s" % (e["cid"], [(d, b.hex()) for d, b in s["runs"]][:6], [(d, b.hex()) for d, b in e["runs"]][:6]))
+    for s in vis:
+        if s["id"] not in used:
+            errs.append("extra visible stream id %d: %s" % (s["id"], show_stream(s)[:200]))
+    return errs
+
+
 def gen_set(rng, name, regime):
+    if regime == "lossy-end":
+        return gen_lossy_end(rng, name)
     if regime == "unsorted":
         return gen_unsorted(rng, name)
     if regime == "udp-bucket":
